@@ -216,4 +216,27 @@ Proof.
   intros I Hc Ho s Hs. apply inv_outside_window; try assumption. intros i Hi. lia.
 Qed.
 
+(* [inv] spelled out at the level of raw slots (this is the invariant as the property states it) *)
+Lemma inv_slots_iff q :
+  inv q <->
+  (0 < sq /\ cnt q <= qsize q /\ (0 < qsize q -> head q < qsize q) /\
+   (0 < cnt q -> tail q = intern q (cnt q - 1)) /\
+   match st q with SNull => arr q = [] | SSmall => qsize q = sq | SHeap => sq <= qsize q end /\
+   (owning = true -> forall s, s < qsize q -> (forall i, i < cnt q -> intern q i <> s) ->
+      nth s (arr q) dflt = dflt)).
+Proof.
+  split.
+  - intros I. split; [exact (inv_sq q I)|]. split; [exact (inv_cnt q I)|].
+    split; [exact (inv_head q I)|]. split; [exact (inv_tail q I)|]. split.
+    + pose proof (inv_store q I) as S. unfold store_ok in S. destruct (st q) eqn:E; try exact S.
+      apply length_zero_iff_nil. exact S.
+    + intros Ho. apply inv_outside_window; assumption.
+  - intros (H0&H1&H2&H3&H4&H5). constructor; try assumption.
+    + unfold store_ok. destruct (st q); try exact H4. unfold qsize. rewrite H4. reflexivity.
+    + intros Ho i Hi. unfold getu. assert (Hh : head q < qsize q) by (apply H2; lia).
+      apply (H5 Ho).
+      * apply intern_lt; lia.
+      * intros i' Hi' E. apply intern_inj in E; lia.
+Qed.
+
 End Inv.
